@@ -33,6 +33,21 @@ fn base_ops(r: &mut R) -> (Vec<Op>, usize) {
     (ops, 11)
 }
 
+/// Many small expressions (one constraint row each); `wrong` lists (index, shift) pairs.
+fn build_many(seed: u64, exprs: usize, wrong: &[(usize, Sc)]) -> Program {
+    let mut r = R::new(seed);
+    let (mut ops, nh) = base_ops(&mut r);
+    for i in 0..exprs {
+        let e = rand_lx(&mut r, nh, 1, 3, false, 0);
+        let fix = match wrong.iter().find(|(k, _)| *k == i) {
+            Some((_, d)) => Fix::BalancePlus(d.clone()),
+            None => Fix::Balance,
+        };
+        ops.push(Op::Constrain { lc: e, fix });
+    }
+    Program { tlabel: 0, pre: vec![], ops }
+}
+
 fn build(seed: u64, depth: u32, exprs: usize, wrong: Option<usize>, only: Option<usize>) -> (Program, Vec<Lx>) {
     let mut r = R::new(seed);
     let (mut ops, nh) = base_ops(&mut r);
@@ -79,6 +94,37 @@ fn verdict<G: AffineRepr>(env: &Env<G>, prog: &Program, seed: u64) -> (Option<bo
 fn run_case<G: AffineRepr>(env: &Env<G>, c: &Case) -> CaseOut {
     let mut o = CaseOut::new();
     o.evals = 0;
+    if c.depth == 8 {
+        // many-rows family: c.exprs expressions; all right -> accepted; two adjacent constants off by
+        // +d and -d -> rejected, at every position of a window around the 256- and 512-row marks
+        let all = build_many(c.seed, c.exprs, &[]);
+        o.evals += 1;
+        match verdict::<G>(env, &all, c.seed ^ 1).0 {
+            Some(true) => o.count("many rows: all constants right -> accepted", 1),
+            other => o.violate("meaning-lost:right-constant-rejected", format!("{} expressions with the right constants are not provable (verdict {:?})", c.exprs, other), json!({"seed": c.seed, "expressions": c.exprs})),
+        }
+        let d = Sc::I(1 + (c.seed % 5) as i64);
+        let nd = Sc::I(-(1 + (c.seed % 5) as i64));
+        let mut ks: Vec<usize> = vec![0, 1, c.exprs - 2];
+        for mark in [64usize, 128, 256, 512] {
+            for off in 0..8usize {
+                let k = (mark + off).saturating_sub(6);
+                if k + 1 < c.exprs {
+                    ks.push(k);
+                }
+            }
+        }
+        for k in ks {
+            let p = build_many(c.seed, c.exprs, &[(k, d.clone()), (k + 1, nd.clone())]);
+            o.evals += 1;
+            match verdict::<G>(env, &p, c.seed ^ 3).0 {
+                Some(true) => o.violate("meaning-lost:cancelling-wrong-constants-accepted", format!("expressions {} and {} of {} constrained to value+d and value-d are accepted", k, k + 1, c.exprs), json!({"seed": c.seed, "expressions": c.exprs, "k": k})),
+                _ => o.count("many rows: adjacent constants off by +d/-d -> rejected", 1),
+            }
+        }
+        o.sig(format!("{}|many-rows|{}", env.curve, c.exprs));
+        return o;
+    }
     let wrong_idx = (c.seed % c.exprs as u64) as usize;
     // (1) all constants right: must be accepted
     let (p_ok, trees) = build(c.seed, c.depth, c.exprs, None, c.only);
@@ -144,7 +190,10 @@ fn run_case<G: AffineRepr>(env: &Env<G>, c: &Case) -> CaseOut {
 fn cases(ctx: &Ctx, curve: &str) -> Vec<Case> {
     let mut r = R::new(ctx.sub_seed(15, curve.len() as u64));
     let n = ctx.n(3000, 60000);
-    (0..n).map(|i| Case { curve: curve.into(), seed: r.u64(), depth: if i % 25 == 24 { 7 } else { 1 + (i % 6) as u32 }, exprs: 8, only: None }).collect()
+    let mut v: Vec<Case> = (0..n).map(|i| Case { curve: curve.into(), seed: r.u64(), depth: if i % 25 == 24 { 7 } else { 1 + (i % 6) as u32 }, exprs: 8, only: None }).collect();
+    v.push(Case { curve: curve.into(), seed: r.u64(), depth: 8, exprs: 300, only: None });
+    v.push(Case { curve: curve.into(), seed: r.u64(), depth: 8, exprs: 540, only: None });
+    v
 }
 
 const ALL_IMPLS: [&str; 23] = [
